@@ -150,6 +150,31 @@ def m_refcell_new(ex, st, callee, args):
     return [(None, Adt("RefCell", None, [args[0]]))]
 
 
+def m_map_eq(ex, st, callee, args):
+    """<HashMap<String, V> as PartialEq>::eq: same key set and equal values (the crate's `V::eq` is run per key)"""
+    from sym import Invoke
+    ra, a = _map_at(ex, st, args[0])
+    rb, b = _map_at(ex, st, args[1])
+    ka = {k: i for i, (k, _) in enumerate(entries(a))}
+    kb = {k: i for i, (k, _) in enumerate(entries(b))}
+    neg = callee.endswith("::ne")
+    if set(ka) != set(kb):
+        return [(None, boolv(neg))]
+    m_ = re.match(r"^<(?:std::collections::)?HashMap<String, (.*)> as PartialEq>::", callee)
+    fn = ex.resolver("<%s as PartialEq>::eq" % m_.group(1), 2) if m_ else None
+    if fn is None:
+        raise Inconclusive("value equality for " + callee)
+    keys = sorted(ka)
+
+    def step(i, acc):
+        if i == len(keys):
+            r = z3.And(*acc) if acc else z3.BoolVal(True)
+            return Sc("bool", z3.Not(r) if neg else r)
+        k = keys[i]
+        return Invoke(fn, [Ref(ra.cell, ra.path + (ka[k], 1)), Ref(rb.cell, rb.path + (kb[k], 1))], lambda st2, val: step(i + 1, acc + [val.e]))
+    return [(None, step(0, []))]
+
+
 def m_into_identity(ex, st, callee, args):
     """<&String as Into<String>>::into / From conversions between string handles / HashMap -> VariableMapping wrappers are
     structural copies in this value model"""
@@ -189,6 +214,7 @@ def install(m):
         (r"^(std::collections::)?HashMap::<String, .*>::len$", m_len),
         (r"^<(std::collections::)?HashMap<String, .*> as Clone>::clone$", m_clone),
         (r"^Option::<&.*>::cloned$", m_option_cloned),
+        (r"^<(std::collections::)?HashMap<String, .*> as PartialEq>::(eq|ne)$", m_map_eq),
         (r"^RefCell::<.*>::(borrow|borrow_mut)$", m_refcell_borrow),
         (r"^<(std::cell::)?Ref(Mut)?<'_, .*> as Deref(Mut)?>::deref(_mut)?$", m_stdref_deref),
         (r"^RefCell::<.*>::new$", m_refcell_new),
